@@ -1259,10 +1259,11 @@ pub fn run(ctx: &mut Ctx) {
         &["add:gbd=1", "add:gbd>1,zero-result", "add:gbd>1,hint-gcd=1", "add:gbd>1,hint-gcd=gbd", "add:gbd>1,1<hint-gcd<gbd", "mul:cross-cancel-one", "mul:cross-cancel-both", "div:cancel-one", "div:cancel-both", "zero-numerator-operand", "integer-valued-operand", "gcd(denominators):1-word", "gcd(denominators):2-words", "gcd(denominators):3+words(Lehmer)", "operand-component>=3words(heap)", "from_parts:reduces-by-3+word-gcd", "rem:zero", "div,rem:by-zero-panics"],
     );
 
-    // large operands (thorough): 8/40-word cores, 3/40/100-word shared factors
-    if !ctx.quick() {
-        let lcores: Vec<BigInt> = vec![BigInt::one(), bi(8, "lcgB"), bi(40, "lcgB")];
-        let lgs: Vec<BigInt> = vec![BigInt::one(), bi(3, "lcgA"), bi(40, "lcgA"), bi(100, "sparse")];
+    // large operands: 8/40-word cores, 3/40/100-word shared factors (quick: a reduced product that
+    // still reaches the unbalanced multi-word multiplication / division paths of the integer layer)
+    {
+        let lcores: Vec<BigInt> = if ctx.quick() { vec![BigInt::one(), bi(40, "lcgB")] } else { vec![BigInt::one(), bi(8, "lcgB"), bi(40, "lcgB")] };
+        let lgs: Vec<BigInt> = if ctx.quick() { vec![bi(3, "lcgA"), bi(100, "sparse")] } else { vec![BigInt::one(), bi(3, "lcgA"), bi(40, "lcgA"), bi(100, "sparse")] };
         let mut lnum = vec![BigInt::zero()];
         lnum.extend(lcores.iter().cloned());
         let (ln, ld, lg) = (lnum.len() as u64, lcores.len() as u64, lgs.len() as u64);
